@@ -8,4 +8,6 @@ import FpgoVerif.Props.C18
 #print axioms FpgoVerif.C18.C18_self_transport_recurses
 #print axioms FpgoVerif.C18.C18_book
 #print axioms FpgoVerif.C18.C18_book_frame
+#print axioms FpgoVerif.C18.C18_setHTTPClient_inv
+#print axioms FpgoVerif.C18.C18_runH_inv
 #print axioms FpgoVerif.C18.C18_client
